@@ -1,4 +1,4 @@
 SPECIFICATION FairSpec
-INVARIANTS TypeOK P1_SeenIsLast P2_Paired P3_NotCleanedEarly P4_CleanedInTime P5_NoLoss P6_GetExact P6_Sorted LevelA
+INVARIANTS TypeOK P5_NoLoss
 PROPERTIES L1_AddReturns L2_GetReturns L3_InDrains
 CHECK_DEADLOCK FALSE
